@@ -1898,7 +1898,7 @@ class WGHT(Command):
     def _as_string(self):
         wght = 'WGHT   {} {}'.format(self.a, self.b)
         # It is very unlikely that someone changes other parameter than a and b:
-        if (self.c + self.d + self.e + self.f) != 0.33333:
+        if (self.c, self.d, self.e, self.f) != (0.0, 0.0, 0.0, 0.33333):
             wght += ' {} {} {} {}'.format(self.c, self.d, self.e, self.f)
         return wght
 
